@@ -122,23 +122,42 @@ def tla_unescape(s):
     return json.loads('"' + s + '"') if False else bytes(s, "utf-8").decode("unicode_escape").encode("latin1").decode("utf-8")
 
 
+_ITEM = re.compile(r'"((?:[^"\\]|\\.)*)"|(-?\d+)|(TRUE|FALSE)')
+
+
+def tlc_tuples(out, tag):
+    """All flat tuples <<"tag", ...>> TLC printed (possibly wrapped over several lines), each
+    as a python list of ints / strings (unescaped) / booleans."""
+    res = []
+    m1, m2 = '<<"%s"' % tag, '<< "%s"' % tag
+    lines = out.split("\n")
+    i, n = 0, len(lines)
+    while i < n:
+        l = lines[i]
+        if l.startswith(m1) or l.startswith(m2):
+            txt = l
+            while not txt.rstrip().endswith(">>") and i + 1 < n:
+                i += 1
+                txt += " " + lines[i].strip()
+            items = []
+            for m in _ITEM.finditer(txt):
+                if m.group(1) is not None:
+                    items.append(tla_unescape(m.group(1)) if "\\" in m.group(1) else m.group(1))
+                elif m.group(2) is not None:
+                    items.append(int(m.group(2)))
+                else:
+                    items.append(m.group(3) == "TRUE")
+            res.append(items)
+        i += 1
+    return res
+
+
 JUDGE = re.compile(r'^<<"JUDGE", (\d+), "(\w+)"(?:, "(.*)")?>>$')
 
 
 def judge_lines(out):
     """[(line number, verdict, [json payloads])]"""
-    res = []
-    for l in out.split("\n"):
-        l = l.strip()
-        if not l.startswith('<<"JUDGE"'):
-            continue
-        m = re.match(r'^<<"JUDGE", (\d+), "(\w+)"(.*)>>$', l)
-        if not m:
-            continue
-        rest = m.group(3)
-        payloads = re.findall(r', "((?:[^"\\]|\\.)*)"', rest)
-        res.append((int(m.group(1)), m.group(2), [tla_unescape(p) for p in payloads]))
-    return res
+    return [(t[1], t[2], t[3:]) for t in tlc_tuples(out, "JUDGE")]
 
 
 def known_findings():
